@@ -6,7 +6,7 @@
    order; exactly balanced transactions without elided amounts are stable (the order-free
    fragment of the property; exactly_balanced_is_stable). *)
 From LedgerV Require Import Base.Prelude Base.Round Model.Amount Model.Xact Model.Journal
-  Proofs.AmountProofs Proofs.XactProofs Proofs.JournalProofs.
+  Proofs.AmountProofs Proofs.XactProofs Proofs.JournalProofs Proofs.CompareProofs.
 From Coq Require Import Permutation.
 Local Open Scope Q_scope.
 
@@ -61,6 +61,20 @@ Theorem display_precision_independent_of_posting_order : forall pre x x' post s,
   pool_get (final_pool (pre ++ x :: post)) s = pool_get (final_pool (pre ++ x' :: post)) s.
 Proof. exact pool_order_free_posts. Qed.
 Print Assumptions display_precision_independent_of_posting_order.
+
+(* a commodity-less amount is displayed with its own precision; the precision of a sum of such amounts is the
+   largest among the summands, so what an account shows does not depend on the order they arrived in *)
+Theorem plain_sum_displayed_precision_order_free : forall a l a' l' r r',
+  Forall plain (a :: l) -> Permutation (a :: l) (a' :: l') ->
+  sum_from a l = Ok r -> sum_from a' l' = Ok r' -> aprec r = aprec r'.
+Proof. exact plain_sum_precision_order_free. Qed.
+Print Assumptions plain_sum_displayed_precision_order_free.
+
+Example ex_plain_sum :
+  let x := mkAmt (12505 # 10) 1 false None in let y := mkAmt (99125 # 1000) 3 false None in
+  (match sum_from x [y] with Ok r => aprec r | _ => (-1)%Z end,
+   match sum_from y [x] with Ok r => aprec r | _ => (-1)%Z end) = (3, 3)%Z.
+Proof. vm_compute. reflexivity. Qed.
 
 (* distributing the transactions over included files: same processing *)
 Theorem include_two_files : forall ord bucket a b,
